@@ -390,5 +390,14 @@ func VX_C06_apply() {
 	}
 	vxCheckFrame(r, order, ocols, ix, "after "+mode)
 	vxCheckFrame(f, names, cols, ix, "source frame")
+	if mode == "apply" && len(order) > len(names) {
+		// frames derived from the same parent by adding different columns are independent:
+		// r has grown by new columns (its column storage may have spare capacity)
+		s1 := r.Copy("sib1", order[0])
+		s2 := r.Apply(Instruction{Fn: 7, DstCol: "sib2"})
+		vxCheckFrame(s1, append(append([]string{}, order...), "sib1"), append(append([]vxCol{}, ocols...), ocols[0]), ix, "first sibling after the second was derived")
+		vx.Check(s2.Err == nil && len(s2.ColumnNames()) == len(order)+1 && s2.ColumnNames()[len(order)] == "sib2", "second sibling has its own new column")
+		vxCheckFrame(r, order, ocols, ix, "parent of the siblings")
+	}
 	vx.Reach("end")
 }
